@@ -216,7 +216,7 @@ EvFollowProbe ==
          \* known finding C03-future-dated-history-drops-live: the replayed history of the context holds a frame
          \* whose id lies above the ids of the frames appended meanwhile (an imported frame dated ahead of the
          \* clock); the live side drops everything at or below the last scanned id, i.e. all of them
-         futureHist == \E i \in avail : \E j \in 1..Len(E.appended) : E.appended[j].ctx = E.ctx /\ i > E.appended[j].id
+         futureHist == \E i \in avail \ {E.appended[j].id : j \in 1..Len(E.appended)} : \E j \in 1..Len(E.appended) : E.appended[j].ctx = E.ctx /\ i > E.appended[j].id
          short == E.route = "catlim" /\ Len(E.res) # (IF Cardinality(avail) < E.lim THEN Cardinality(avail) ELSE E.lim)
                      /\ avail \cap g.evictable = {}
      IN
